@@ -328,6 +328,29 @@ func (x *exec) memLab(seed int) {
 	if addrCmd == nil || len(addrCmd.Args) != 1 {
 		return
 	}
+	// arguments that are none of the listed forms must be answered with an
+	// error by the command's own argument parser
+	malformed := []string{"0o17", "0O7", "0x_ff", "0x1_0", "0_7", "0b1_0", "1_000", "_1", "1_", "+5", "-1", "0x", "0b", "0B", "0X", "x", "0x1g", "08", "0b12",
+		"18446744073709551616", "0x10000000000000000", "1e3", "0x-1", "１", "5 ", "", "0b" + strings.Repeat("1", 65), "0" + strings.Repeat("7", 23)}
+	for k := 0; k < 3 && !x.stop; k++ {
+		arg := malformed[r.Intn(len(malformed))]
+		if _, ok := parseChecked(arg, false); ok {
+			if v, _ := parseChecked(arg, false); fits64(v) {
+				continue
+			}
+		}
+		var perr error
+		fn, msg, panicked := core.Guard(func() { _, perr = addrCmd.Args[0](arg) })
+		if panicked {
+			x.fail("C30", "address-parse", "address/lab-panic/"+fn, "address argument %q panicked: %s", arg, msg)
+			return
+		}
+		x.ctx.Probe("memlab_malformed_address")
+		if perr == nil {
+			x.fail("C30", "address-parse", "address/malformed-accepted", "address argument %q is none of decimal / 0x / 0b / 0-octal 64-bit forms but was not answered with an error", arg)
+			return
+		}
+	}
 	for k := 0; k < 4 && !x.stop; k++ {
 		var a uint64
 		switch r.Intn(4) {
